@@ -386,7 +386,8 @@ Definition sstep (s : sstate) (o : op) : sstate * out :=
     end
   | OSwap a b =>
     (* exchange the child lists: cut both, graft them crosswise *)
-    if (mem a (b :: ancs b (lists s)) || mem b (a :: ancs a (lists s))) && negb (a =? b) then (s, OutX)
+    if a =? b then (if slive s a then (s, OutP None) else (s, OutX))
+    else if mem a (b :: ancs b (lists s)) || mem b (a :: ancs a (lists s)) then (s, OutX)
     else
       match cut a (lists s) with
       | Some (ta, s1) =>
@@ -408,17 +409,17 @@ Definition sstep (s : sstate) (o : op) : sstate * out :=
     (* exchange the places of the two nodes with everything below them: cut both
        child lists, let the two childless nodes change places, graft each list
        back under its own node *)
-    if (mem a (b :: ancs b (lists s)) || mem b (a :: ancs a (lists s))) && negb (a =? b) then (s, OutX)
+    if a =? b then (if slive s a then (s, OutP None) else (s, OutX))
+    else if mem a (b :: ancs b (lists s)) || mem b (a :: ancs a (lists s)) then (s, OutX)
     else
       match cut a (lists s) with
       | Some (ta, s1) =>
         match cut b s1 with
         | Some (tb, s2) =>
-          let s3 := if a =? b then s2
-                    else exch_st a (tname ta) (tval ta) b (tname tb) (tval tb) s2 in
+          let s3 := exch_st a (tname ta) (tval ta) b (tname tb) (tval tb) s2 in
           match graft a (tkids ta) s3 with
           | Some s4 =>
-            match graft b (if a =? b then tkids ta else tkids tb) s4 with
+            match graft b (tkids tb) s4 with
             | Some s5 => (with_lists s s5, OutP None)
             | None => (s, OutX)
             end
